@@ -145,13 +145,15 @@ AGG_RULES = [
   ('p.<f>q', 'a<f>b.*', 'min'),
   ('lit.out', 'a.b', 'count'),
   ('pre.<f>', 'x*.<f>', 'sum'),
+  ('cnt.<f>', 'a.<f>', 'count'),       # same input pattern as 'agg.<f>', another aggregate (a sum/count pair)
 ]
 AGG_DESTS = [('10.0.0.1', 2004, 'a'), ('10.0.0.2', 2004, 'b'), ('10.0.0.1', 2104, 'c'), ('10.0.0.3', 2004, 'd')]
 AGG_ALPHABET = 'abx.'
 
 
 def agg_shard(arg):
-  rulesets, maxlen = arg
+  rulesets, maxlen = arg[:2]
+  name_cache = arg[2] if len(arg) > 2 else (0, 0)
   env.boot()
   from carbon.routers import DatapointRouter
   from carbon.aggregator.rules import RuleManager
@@ -163,6 +165,7 @@ def agg_shard(arg):
   ok = set()
   bad = []
   tick = [2000000000]
+  real['CACHE_METRIC_NAMES_MAX'], real['CACHE_METRIC_NAMES_TTL'] = name_cache
   for rules in rulesets:
     with open(path, 'w') as f:
       f.write('# generated\n\n')
@@ -204,13 +207,15 @@ def agg_shard(arg):
             if got != want:
               if len(bad) < 3:
                 bad.append(('aggregated-routing', '%s: metric %r routed to %r; the rules map it to aggregates %r whose hash '
-                            'destinations are %r | rules %r dests=%d rf=%d' % (cls, name, sorted(got), aggs, sorted(want), rules, ndest, rf),
-                            {'rules': rules, 'metric': name, 'cls': cls, 'ndest': ndest, 'rf': rf}))
+                            'destinations are %r | rules %r dests=%d rf=%d name cache (max, ttl)=%r' % (
+                              cls, name, sorted(got), aggs, sorted(want), rules, ndest, rf, name_cache),
+                            {'rules': rules, 'metric': name, 'cls': cls, 'ndest': ndest, 'rf': rf, 'name_cache': list(name_cache)}))
             elif aggs:
               ok.add((tuple(rules), cls, ndest, rf, name))
   if RuleManager.read_task.running:
     RuleManager.read_task.stop()
   RuleManager.rules = []
+  real['CACHE_METRIC_NAMES_MAX'], real['CACHE_METRIC_NAMES_TTL'] = 0, 0
   return n, len(ok), bad
 
 
@@ -299,8 +304,11 @@ def run(ctx):
   rulesets = [list(c) for k in range(1, kr + 1) for c in itertools.permutations(AGG_RULES, k)]
   if not ctx.thorough:
     rulesets = [r for r in rulesets if len(r) == 1] + [r for i, r in enumerate(rulesets) if len(r) == 2 and i % 2 == 0]
+    rulesets += [[AGG_RULES[1], AGG_RULES[7]], [AGG_RULES[7], AGG_RULES[1]]]     # the pair sharing an input pattern, both orders
   rulesets = core.seeded_order(rulesets, ctx.seed)
-  res = core.pmap(agg_shard, [(rulesets[i::nsh], ctx.pick(5, 6)) for i in range(nsh)], chunksize=1)
+  # the per-rule name memo (CACHE_METRIC_NAMES_MAX / _TTL) off, LRU and TTL
+  caches = [(0, 0), (100, 0), (2, 0), (100, 60)] if ctx.thorough else [(0, 0), (100, 0)]
+  res = core.pmap(agg_shard, [(rulesets[i::nsh], ctx.pick(5, 6), nc) for nc in caches for i in range(nsh)], chunksize=1)
   n2 = d2 = 0
   for cnt, okc, bad in res:
     n2 += cnt
@@ -343,7 +351,7 @@ def replay(path):
   elif 'sections' in rep:
     n, ok, bad = relay_shard(([rep['sections']], [tuple(rep['configured'])]))
   else:
-    n, ok, bad = agg_shard(([[tuple(r) for r in rep['rules']]], 6))
+    n, ok, bad = agg_shard(([[tuple(r) for r in rep['rules']]], 6, tuple(rep.get('name_cache', (0, 0)))))
   for key, what, _ in bad:
     print('oracle: [%s] %s' % (key, what))
   if not bad:
